@@ -43,3 +43,9 @@ Theorem C04_sub_total : forall a b, canonp (rem a) -> canonp (rem b) -> (blade b
   Rabs (theta (geometric_sub a b) - (theta a - theta b)) <= R_ eps10 + 3 * / 4503599627370496.
 Proof. exact geometric_sub_total. Qed.
 Print Assumptions C04_sub_total.
+
+(* (a + b) - b returns a within one addition plus one subtraction tolerance (a carries >= 1 blade) *)
+Theorem C04_add_sub : forall a b, canonp (rem a) -> canonp (rem b) -> (1 <= blade a)%Z ->
+  Rabs (theta (geometric_sub (geometric_add a b) b) - theta a) <= 2 * R_ eps10 + 5 * / 4503599627370496.
+Proof. exact add_sub_roundtrip. Qed.
+Print Assumptions C04_add_sub.
